@@ -20,6 +20,8 @@ Counter p_assign_empty("probe.optional_assign_empty_to_engaged");
 Counter p_read_empty("probe.optional_read_empty");
 Counter p_copy_mutate("probe.optional_copy_then_replace_one");
 Counter p_self_assign("probe.optional_self_copy_assignment");
+Counter p_swap("probe.adl_swap_of_two_pointers");
+Counter p_optbool("probe.optional_of_bool_copied");
 Counter p_fault_make("probe.fault_inside_make_quaint");
 Counter p_fault_vec("probe.fault_inside_vector_growth");
 Counter p_fault_opt("probe.fault_inside_optional_copy");
@@ -223,6 +225,8 @@ enum Kind
     K_OPT_ASSIGN_RVALUE,
     K_OPT_READ,
     K_OPT_DESTROY,
+    K_SWAP,     // using std::swap; swap(a, b) on two owning pointers
+    K_OPT_BOOL, // optional<bool>: copies keep engagement and value
     K_N
 };
 const std::vector<OpSchema>& own_schema()
@@ -251,6 +255,8 @@ const std::vector<OpSchema>& own_schema()
         { "opt_assign_rvalue", { "opt", "val" } },
         { "opt_read", { "opt" } },
         { "opt_destroy", { "opt" } },
+        { "swap", { "slot", "other" } },
+        { "opt_bool", { "state", "how" } },
     };
     return s;
 }
@@ -678,6 +684,71 @@ struct Exec
             nvec[idx] = 0;
             break;
         }
+        case K_SWAP:
+        {
+            int other = static_cast<int>(((op.a[1] % NSLOT) + NSLOT) % NSLOT);
+            if (other == si || !slot[si] || !slot[other])
+            {
+                executed = false;
+                break;
+            }
+            arg = std::string(mslot[si] > 0 ? "engaged" : "empty") + (mslot[other] > 0 ? ",engaged" : ",empty");
+            p_swap++;
+            res = guarded([&] {
+                using std::swap;
+                swap(*slot[si], *slot[other]);
+            });
+            std::swap(nslot[si], nslot[other]);
+            break;
+        }
+        case K_OPT_BOOL:
+        {
+            // optional<bool>: a value type that is itself contextually convertible to bool must not
+            // confuse copies (engagement and value survive every way of copying)
+            int state = static_cast<int>(op.a[0] % 3), how = static_cast<int>(op.a[1] % 4);
+            arg = state == 0 ? "empty" : state == 1 ? "false" : "true";
+            bool ok = true;
+            std::string why;
+            res = guarded([&] {
+                using OB = nitro::lang::optional<bool>;
+                OB a;
+                if (state == 1)
+                    a = false;
+                else if (state == 2)
+                    a = true;
+                OB target;
+                if (how == 0)
+                {
+                    OB b(a); // from a non-const lvalue
+                    ok = static_cast<bool>(b) == (state != 0) && (state == 0 || *b == (state == 2));
+                    why = "copy construction from a non-const lvalue";
+                }
+                else if (how == 1)
+                {
+                    OB b(static_cast<const OB&>(a));
+                    ok = static_cast<bool>(b) == (state != 0) && (state == 0 || *b == (state == 2));
+                    why = "copy construction from a const lvalue";
+                }
+                else if (how == 2)
+                {
+                    target = true;
+                    target = a; // from a non-const lvalue
+                    ok = static_cast<bool>(target) == (state != 0) && (state == 0 || *target == (state == 2));
+                    why = "copy assignment from a non-const lvalue";
+                }
+                else
+                {
+                    target = false;
+                    target = static_cast<const OB&>(a);
+                    ok = static_cast<bool>(target) == (state != 0) && (state == 0 || *target == (state == 2));
+                    why = "copy assignment from a const lvalue";
+                }
+            });
+            p_optbool++;
+            if (res == RS_OK && !ok)
+                fail("C18/optional:value", op, opi, arg, "optional<bool>: " + why + " changed engagement or value");
+            break;
+        }
         case K_OPT_DEFAULT:
         case K_OPT_VALUE:
         case K_OPT_RVALUE:
@@ -985,10 +1056,10 @@ public:
         int mode = static_cast<int>(rng.below(4)); // 0 pointers only, 1 optionals only, 2-3 both
         p.knobs.emplace_back("mode", mode);
         int nops = rng.range(3, 16);
-        static const int ptr_kinds[] = { K_MAKE, K_MAKE, K_MAKE, K_MOVE_CONSTRUCT, K_MOVE_ASSIGN, K_MOVE_ASSIGN, K_RESET, K_ASSIGN_NULL,
+        static const int ptr_kinds[] = { K_SWAP, K_SWAP, K_MAKE, K_MAKE, K_MAKE, K_MOVE_CONSTRUCT, K_MOVE_ASSIGN, K_MOVE_ASSIGN, K_RESET, K_ASSIGN_NULL,
                                          K_OBSERVE, K_DESTROY, K_VEC_PUSH, K_VEC_PUSH, K_VEC_EMPLACE, K_VEC_EMPLACE, K_VEC_POP, K_VEC_ERASE,
                                          K_VEC_CLEAR, K_VEC_SHRINK, K_VEC_TAKE };
-        static const int opt_kinds[] = { K_OPT_DEFAULT, K_OPT_VALUE, K_OPT_VALUE, K_OPT_RVALUE, K_OPT_COPY_CONSTRUCT, K_OPT_COPY_CONSTRUCT,
+        static const int opt_kinds[] = { K_OPT_BOOL, K_OPT_DEFAULT, K_OPT_VALUE, K_OPT_VALUE, K_OPT_RVALUE, K_OPT_COPY_CONSTRUCT, K_OPT_COPY_CONSTRUCT,
                                          K_OPT_COPY_ASSIGN, K_OPT_COPY_ASSIGN, K_OPT_COPY_ASSIGN, K_OPT_ASSIGN_VALUE, K_OPT_ASSIGN_RVALUE,
                                          K_OPT_READ, K_OPT_READ, K_OPT_DESTROY };
         for (int n = 0; n < nops; n++)
